@@ -478,6 +478,39 @@ fn inf_minus_inf_cases(cx: &mut Cx, rng: &mut Rng) {
     }
 }
 
+/// every unary operator on boxes that are a few ulps wide, at magnitudes from 0.5 to 1e9: all the floats of the
+/// box are sampled (the trigonometric operators classify rounded angles into quadrants)
+fn narrow_cases(cx: &mut Cx, quick: bool) {
+    use vharness::tapes::{GOp, UNARY};
+    let next_up = |x: f32| if x >= 0.0 { f32::from_bits(x.to_bits() + 1) } else { f32::from_bits(x.to_bits() - 1) };
+    for u in UNARY {
+        let p = Prog { ssa: vec![GOp::new(0, "Output", -1, 1, 0, 0), GOp::new(3, u, 1, 0, -1, 0), GOp::new(1, "Input", 0, 0, -1, 0)], nvars: 1 };
+        let (Ok(vmf), Ok(jf)) = (vm_fn::<255>(&p), jit_fn(&p)) else { continue };
+        let mut x = 0.5f32;
+        let step = if quick { 1.02f32 } else { 1.001 };
+        let mut n = 0usize;
+        while x < 1.0e9 {
+            let k = [1usize, 2, 5][n % 3];
+            let mut all = vec![x];
+            for _ in 0..k {
+                all.push(next_up(*all.last().unwrap()));
+            }
+            for neg in [false, true] {
+                let vals: Vec<f32> = if neg { all.iter().rev().map(|v| -*v).collect() } else { all.clone() };
+                let bx = vec![Interval::new(vals[0], *vals.last().unwrap())];
+                let pts: Vec<Vec<f32>> = vals.iter().map(|v| vec![*v]).collect();
+                let pf = |q: &[f32]| point_trace(&vmf, q).out;
+                e2e(cx, "vm-narrow", &vmf, &pf, 1, &bx, &pts, false, &p);
+                if n % 4 == 0 {
+                    e2e(cx, "jit-narrow", &jf, &pf, 1, &bx, &pts, false, &p);
+                }
+            }
+            n += 1;
+            x *= step;
+        }
+    }
+}
+
 fn main() {
     let args: Vec<String> = std::env::args().collect();
     let quick = args[2] == "quick";
@@ -528,6 +561,7 @@ fn main() {
     overflow_cases(&mut cx, &mut rng);
     zero_times_inf_cases(&mut cx, &mut rng);
     inf_minus_inf_cases(&mut cx, &mut rng);
+    narrow_cases(&mut cx, quick);
     transformed::<VmFunction>(&mut cx, "vm", &mut rng, if quick { 300 } else { 4000 });
     transformed::<JitFunction>(&mut cx, "jit", &mut rng, if quick { 300 } else { 4000 });
     let n = cx.id;
